@@ -165,7 +165,7 @@ def _run(job):
         rep = run_property(m["prop"], "quick", root, overlay={m["rel"]: src})
     except Exception as e:
         return dict(m, outcome="crash", detail=repr(e)[:200])
-    r, u = rep.refuted(), rep.undecided()
+    r, u = rep.new_refuted(), rep.undecided()
     if r:
         return dict(m, outcome="refuted", detail=f"{r[0].rule} {r[0].where}: {r[0].desc[:80]}")
     if u or rep.errors:
